@@ -4,7 +4,10 @@
 (* into a sandbox project (one edge of the history tree) together with     *)
 (* what was observed before it and what a fresh interpreter observed       *)
 (* after it:                                                               *)
-(*   [id, depth, pre, ev]                                                  *)
+(*   [id, depth, layout, names, pre, ev]                                   *)
+(*   layout = sib / api / far (where the clients live relative to the      *)
+(*   core), names = unrelated / prefix-related (observed spelling of the   *)
+(*   package names: one a string prefix of another, not its parent)        *)
 (*   pre = [generated, ok, served, declared, regfile, registry]            *)
 (*         (the observation after the previous step of the same history)   *)
 (*   ev[1]   = [k |-> "generate", client, codes, force, applied, regfile,  *)
@@ -44,7 +47,8 @@ StepKind ==
 Victim(c) == IF c = G.client THEN "self" ELSE "other-client"
 
 Locus(c, exc, what) ==
-  [core_depth |-> T.depth, step_kind |-> StepKind, victim |-> Victim(c), force |-> G.force, exc |-> exc, what |-> what]
+  [core_depth |-> T.depth, layout |-> T.layout, names |-> T.names, step_kind |-> StepKind, victim |-> Victim(c),
+   force |-> G.force, exc |-> exc, what |-> what]
 
 \* ---- C11.registry_lost_client: the registry file is there but does not cover a client generated so far
 Covers(reg, c, codes) == c \in DOMAIN reg /\ codes \subseteq ToSet(reg[c])
